@@ -181,3 +181,16 @@ VARIANTS += [
  V("c46-k3-parsed-into-wrong-field", "C46", "C46.K3", "options.go",
    '			case "l0_compaction_file_threshold":\n				o.L0CompactionFileThreshold, err = strconv.Atoi(value)', '			case "l0_compaction_file_threshold":\n				o.L0CompactionThreshold, err = strconv.Atoi(value)'),
 ]
+
+VARIANTS += [
+ V("c39-p2-reintroduce-F7", "C39", "C39.P2", "blob_rewrite.go",
+   "	stats, err := rewriter.Rewrite(ctx)\n	if err != nil {\n		return objMeta, nil, err\n	}", "	stats, err := rewriter.Rewrite(ctx)\n	if err != nil {\n		return objstorage.ObjectMetadata{}, nil, err\n	}"),
+ V("c39-w1a-remove-in-compact1", "C39", "C39.W1a", "compaction.go",
+   "	d.mu.versions.addObsoleteLocked(obsoleteFiles)\n}", "	d.mu.versions.addObsoleteLocked(obsoleteFiles)\n	for _, of := range obsoleteFiles.TableBackings {\n		_ = d.objProvider.Remove(base.FileTypeTable, of.DiskFileNum)\n	}\n}"),
+ V("c39-o1-delete-while-disabled", "C39", "C39.O1", "obsolete_files.go",
+   "	if d.mu.fileDeletions.disableCount > 0 {\n		return\n	}\n	_, noRecycle", "	_, noRecycle"),
+ V("c39-o1-install-before-zombies", "C39", "C39.O1", "version_set.go",
+   "	for _, zb := range zombieBlobs {\n		vs.zombieBlobs.Add(zb)\n	}", "	vs.append(newVersion)\n	for _, zb := range zombieBlobs {\n		vs.zombieBlobs.Add(zb)\n	}"),
+ V("c38-o1-seqnum-after-unlock", "C38", "C38.O1", "checkpoint.go",
+   "	visibleSeqNum := d.mu.versions.visibleSeqNum.Load()\n\n	// Release the manifest", "	d.mu.versions.logUnlock()\n	visibleSeqNum := d.mu.versions.visibleSeqNum.Load()\n	d.mu.versions.logLock()\n\n	// Release the manifest"),
+]
